@@ -827,14 +827,22 @@ def main():
     g.raw(open(os.path.join(a.verif, "model", "hashbrown_0_14_5.rs")).read())
     g.raw("\n//@section prelude\n")
     g.raw(open(os.path.join(a.verif, "contracts", "prelude.rs")).read())
-    g.raw("\n//@section code\nverus! {\n")
+    g.raw("\n//@section code\nuse raw::*;\nuse map::*;\nuse set::*;\nverus! {\n")
     specs = a.specs or [os.path.join(a.verif, "contracts", f) for f in ("raw.spec", "map.spec", "set.spec")]
+    mods_done = []
     try:
         for spath in specs:
             if not os.path.exists(spath):
                 continue
             for fspec in specfile.parse(spath):
+                modname = {"src/raw/mod.rs": "raw", "src/map.rs": "map", "src/set.rs": "set"}[fspec.path]
+                mods_done.append(modname)
+                g.raw("\npub mod %s {\nuse super::*;\n" % modname)
                 process_file(sp, fspec, g)
+                g.raw("\n} // mod %s\n" % modname)
+        for m in ("raw", "map", "set"):
+            if m not in mods_done:
+                g.raw("\npub mod %s { }\n" % m)
     except Undecided as e:
         print("UNDECIDED: %s" % e)
         json.dump({"undecided": str(e)}, open(os.path.join(out, "meta.json"), "w"))
